@@ -283,18 +283,47 @@ pub fn eval(hc: &HistCheck, h: &History, st: &mut Stats, excuse: (bool, bool)) -
             }
         }
     }
-    if hc.twin_without_reads && h.ops.iter().any(|o| matches!(o, Op::Read(_))) {
-        let (it2, results2) = run_history_with(h, true, false, excuse);
-        let a: Vec<&OpResult> = results.iter().filter(|r| !matches!(r, OpResult::Read)).collect();
-        let b: Vec<&OpResult> = results2.iter().filter(|r| !matches!(r, OpResult::Read)).collect();
+    // C07 twins 1 and 3 are *blind* replays of the concrete calls on fresh levels: no listing, no
+    // aggregate reads, nothing but the calls themselves, so that the interpreter's own per-step
+    // observations cannot mask (or cause) an effect of the read-only calls.
+    if hc.twin_without_reads && !it.dead && it.concrete.iter().any(|c| matches!(c, Concrete::Read(_))) {
+        let blind = |calls: &[&Concrete]| -> Vec<OpResult> {
+            let level = pricelevel::PriceLevel::new(h.price);
+            let gen = pricelevel::UuidGenerator::new(uuid::Uuid::from_u128(0x5eed));
+            calls.iter().map(|c| apply_concrete(&level, &gen, c, 2_000_000)).collect()
+        };
+        let all: Vec<&Concrete> = it.concrete.iter().collect();
+        let no_reads: Vec<&Concrete> = it.concrete.iter().filter(|c| !matches!(c, Concrete::Read(_))).collect();
+        let last_read = it.concrete.iter().rposition(|c| matches!(c, Concrete::Read(_))).unwrap();
+        let only_last: Vec<&Concrete> = it
+            .concrete
+            .iter()
+            .enumerate()
+            .filter(|(i, c)| *i == last_read || !matches!(c, Concrete::Read(_)))
+            .map(|(_, c)| c)
+            .collect();
+        let r_all = blind(&all);
+        let r_none = blind(&no_reads);
+        let r_last = blind(&only_last);
         st.count("twin_runs");
-        if it.dead == it2.dead && a != b {
+        let a: Vec<&OpResult> = r_all.iter().filter(|r| !matches!(r, OpResult::ReadValue(_))).collect();
+        let b: Vec<&OpResult> = r_none.iter().collect();
+        if a != b {
             let i = a.iter().zip(b.iter()).position(|(x, y)| x != y).unwrap_or(a.len().min(b.len()));
             return Err(format!(
-                "deleting the read-only calls changes the result of a later operation (non-read op #{}): with reads {:?}, without {:?}",
-                i,
+                "deleting the read-only calls changes the result of a later operation (non-read call #{}): with reads {:?}, without {:?}",
+                i + 1,
                 a.get(i),
                 b.get(i)
+            ));
+        }
+        // what the last read sees must not depend on earlier reads
+        let va = r_all.iter().rev().find(|r| matches!(r, OpResult::ReadValue(_)));
+        let vb = r_last.iter().rev().find(|r| matches!(r, OpResult::ReadValue(_)));
+        if va != vb {
+            return Err(format!(
+                "what the last read-only call ({:?}) returns depends on earlier read-only calls: with them {:?}, without them {:?}",
+                it.concrete[last_read], va, vb
             ));
         }
     }
@@ -455,6 +484,8 @@ pub fn witnesses() -> Vec<(&'static str, &'static str, History)> {
         pool: pool.clone(),
         ops,
         ghost: None,
+        hold: false,
+        gen_start: 0,
     };
     vec![
         (
